@@ -198,6 +198,11 @@ func vfAtLoadRun(r *vfev.Report, nbp *int, shard, shards int, target string, nop
 						slot = "its next {sub} is never answered"
 					}
 				}
+				if req != "DISCONNECT" && c != t.cl[loader] && !c.ended && !c.closed {
+					if fc, _ := c.Req(`{"leave":{"id":"$ID","topic":"fnd"}}`); fc == 0 && !c.ended {
+						slot = "the next {leave} of the session which sent the second request is never answered"
+					}
+				}
 			})
 			name := fmt.Sprintf("%s %s", opName(oi), where)
 			r.Eval(1)
